@@ -114,7 +114,7 @@ func c06Gen(tier string, seed int64) []fw.Case {
 			add(c06Desc{Kind: "local", Role: role, Codes: cs, Reasons: []int{0, 123}}, fmt.Sprintf("local/%s/sampled-codes", role))
 			add(c06Desc{Kind: "peer", Role: role, Codes: cs, Reasons: []int{0, 123}, Place: "idle"}, fmt.Sprintf("peer/%s/sampled-codes", role))
 		}
-		add(c06Desc{Kind: "local", Role: role, Codes: []int{-1, -1000, 65536, 70000, 1 << 31, -(1 << 31)}, Reasons: []int{0, 5}}, fmt.Sprintf("local/%s/out-of-range", role))
+		add(c06Desc{Kind: "local", Role: role, Codes: []int{-1, -1000, 65536, 66536, 66537, 68536, 70000, 65536 + 4999, -64535, -64536, 1<<16 + 1<<17 + 1000, 1 << 31, -(1 << 31), 1<<32 + 1000}, Reasons: []int{0, 5}}, fmt.Sprintf("local/%s/out-of-range", role))
 		// all reason lengths for representative codes
 		var rl []int
 		for l := 0; l <= 130; l++ {
@@ -138,6 +138,10 @@ func c06Gen(tier string, seed int64) []fw.Case {
 			for _, drop := range []string{"peer-closes-transport-after-echo", "peer-keeps-transport"} {
 				add(c06Desc{Kind: "local-active-reader", Role: role, Place: rd, Closer: drop}, fmt.Sprintf("local-active-reader/%s/%s/%s", role, rd, drop))
 			}
+		}
+		// (A'') local Close while a message is only partially read
+		for _, hr := range []string{"single-frame", "final-fragment", "first-fragment", "compressed-single-frame", "compressed-first-fragment", "unread"} {
+			add(c06Desc{Kind: "local-half-read", Role: role, Place: hr}, fmt.Sprintf("local-half-read/%s/%s", role, hr))
 		}
 		// (D) after closed
 		for _, closer := range []string{"Close", "CloseNow", "peer-close", "protocol-error", "context-expiry", "transport-eof"} {
@@ -249,6 +253,10 @@ func c06Run(r *fw.R, d c06Desc) {
 		for i := 0; i < 40 && !r.Failed(); i++ {
 			c06LocalActiveReader(r, d, i)
 		}
+	case "local-half-read":
+		for i := 0; i < 12 && !r.Failed(); i++ {
+			c06LocalHalfRead(r, d, i)
+		}
 	case "after-closed":
 		c06AfterClosed(r, d)
 	case "orders":
@@ -310,6 +318,9 @@ func c06Local(r *fw.R, d c06Desc, code, rl int) {
 		if seen && (gotCode == code && !wire.CodeOnWire(code) || len(pay) > 125 || (len(pay) >= 2 && len(pay)-2 > 123)) {
 			r.Violate("C06/unsendable-close-sent/"+rlClass(rl), fmt.Sprintf("%s put an unsendable Close payload on the wire: code %d, %d reason bytes", what, gotCode, len(pay)-2), hexdump(pay, 140))
 		}
+		if seen && !wire.CodeOnWire(code) && code != 1005 && gotCode != 1011 {
+			r.Violate("C06/unsendable-close-sent-as-other-code", fmt.Sprintf("%s cannot be sent, yet a Close frame with code %d went out", what, gotCode), hexdump(pay, 140))
+		}
 		if seen && rl > 123 && len(gotReason) > 123 {
 			r.Violate("C06/oversize-reason-sent", fmt.Sprintf("%s sent %d reason bytes", what, len(gotReason)), "")
 		}
@@ -333,9 +344,7 @@ func c06PostClose(r *fw.R, c *websocket.Conn, what string) {
 	if w, err := c.Writer(ctx, websocket.MessageText); err == nil {
 		_, err1 := w.Write([]byte("x"))
 		err2 := w.Close()
-		if err1 == nil && err2 == nil {
-			r.Violate("C06/writer-after-close", what+": Writer, Write and Close all succeeded on a closed connection", "")
-		}
+		r.Violate("C06/writer-after-close", fmt.Sprintf("%s: Writer succeeded on a closed connection (its Write returned %v, its Close %v)", what, err1, err2), "")
 	}
 	if err := c.Ping(ctx); err == nil {
 		r.Violate("C06/ping-after-close", what+": Ping succeeded on a closed connection", "")
@@ -572,6 +581,78 @@ func c06LibPair(r *fw.R, d c06Desc, code, rl int) {
 var errLost = errors.New("lost")
 
 var c06Delay atomic.Bool
+
+// (A'') Close while the application has read only part of a message. The rest of
+// the message must be skipped and the peer's echo found; Close returns nil.
+func c06LocalHalfRead(r *fw.R, d c06Desc, iter int) {
+	p := wire.Params{}
+	compressed := strings.HasPrefix(d.Place, "compressed")
+	if compressed {
+		p = wire.Params{Deflate: true, ClientNoCtx: iter%2 == 0}
+	}
+	c, _, peerEnd, err := libConn(d.Role, p, 0, xport.Plan{}, xport.Plan{})
+	if err != nil {
+		r.Violate("C06/attach-failed", err.Error(), "")
+		return
+	}
+	defer c.CloseNow()
+	defer peerEnd.Close()
+	peer := newRawPeer(peerEnd, d.Role, p, d.Seed+uint64(iter))
+	peer.AutoClose = true
+	peer.Start()
+	rng := fw.NewRand(d.Seed + uint64(iter))
+	size := []int{300, 1000, 5000, 20000}[iter%4]
+	payload := genPayload(rng, size, 2, nil)
+	wp := payload
+	if compressed {
+		wp = (&wire.Deflater{Takeover: true}).Message(payload, 6, wire.EndSync)
+	}
+	var frs []wire.Frame
+	switch {
+	case strings.HasSuffix(d.Place, "single-frame") || d.Place == "unread":
+		frs = fragments(rng, wire.OpBinary, compressed, wp, 1)
+	default:
+		cut := len(wp) / 2
+		f1 := wire.Frame{Op: wire.OpBinary, Rsv1: compressed, Payload: wp[:cut], LenForm: -1}
+		f2 := wire.Frame{Op: wire.OpCont, Fin: true, Payload: wp[cut:], LenForm: -1}
+		frs = []wire.Frame{f1, f2}
+	}
+	for _, f := range frs {
+		peer.Send(f)
+	}
+	ctx, cancel := context.WithTimeout(context.Background(), 30*time.Second)
+	defer cancel()
+	what := fmt.Sprintf("%s Close with a message %s (%d bytes, %d frames)", d.Role, d.Place, size, len(frs))
+	if d.Place != "unread" {
+		_, rd, err := c.Reader(ctx)
+		if err != nil {
+			r.Violate("C06/reader-failed", what+": "+err.Error(), "")
+			return
+		}
+		want := 7
+		if d.Place == "final-fragment" {
+			want = size/2 + 20 // into the second frame
+		}
+		buf := make([]byte, want)
+		if _, err := io.ReadFull(rd, buf); err != nil {
+			r.Violate("C06/reader-failed", what+": "+err.Error(), "")
+			return
+		}
+	}
+	code := c06RepCodes[iter%len(c06RepCodes)]
+	cerr := c.Close(websocket.StatusCode(code), "half read")
+	r.Key("local-half-read/%s/%s", d.Role, d.Place)
+	r.Count("local_closes_checked", 1)
+	peer.WaitEnd(10 * time.Second)
+	peer.Locked(func() {
+		if !peer.Conf.CloseSeen || peer.Conf.CloseCode != code {
+			r.Violate("C06/close-payload-differs/half-read", fmt.Sprintf("%s: Close(%d) emitted close frame=%v code=%d", what, code, peer.Conf.CloseSeen, peer.Conf.CloseCode), "")
+		}
+	})
+	if cerr != nil {
+		r.Violate("C06/close-returned-error/half-read-"+d.Place, fmt.Sprintf("%s: the peer echoed the code but Close returned: %v", what, cerr), "")
+	}
+}
 
 // (A') Close with a reader goroutine active on the same connection. The peer
 // echoes the code; Close must return nil whichever goroutine reads the echo.
